@@ -40,7 +40,7 @@ pub fn gen_op(
         Node::Int { .. } => gen_primitive(ast, INT, env, constr),
         Node::ENum { .. } => gen_primitive(ast, INT, env, constr),
         Node::Str { expressions, .. } => {
-            gen_vec(expressions, env, false, ctx, constr)?;
+            gen_vec(expressions, &env.is_expr(true), false, ctx, constr)?;
             for expr in expressions {
                 constr.add_constr(&Constraint::stringy("string", &Expected::from(expr)), env);
             }
@@ -278,13 +278,15 @@ pub fn gen_magic(
     ctx: &Context,
     constr: &mut ConstrBuilder,
 ) -> Constrained {
+    // operands are expressions, whatever the position of the operation itself
     let res = gen_vec(
         &[right.clone(), left.clone()],
-        env,
+        &env.is_expr(true),
         env.is_def_mode,
         ctx,
         constr,
-    )?;
+    )?
+    .is_expr(env.is_expr);
     constr.add(
         format!("{fun} operation").as_str(),
         &Expected::from(ast),
@@ -303,7 +305,7 @@ fn gen_unary(
     ctx: &Context,
     constr: &mut ConstrBuilder,
 ) -> Constrained {
-    let res = generate(expr, env, ctx, constr)?;
+    let res = generate(expr, &env.is_expr(true), ctx, constr)?.is_expr(env.is_expr);
     let function = Function {
         name: StringName::from(fun),
         args: vec![Expected::from(expr)],
@@ -345,5 +347,6 @@ fn bin_op(
     ctx: &Context,
     constr: &mut ConstrBuilder,
 ) -> Constrained {
-    gen_vec(&[right.clone(), left.clone()], env, false, ctx, constr)
+    gen_vec(&[right.clone(), left.clone()], &env.is_expr(true), false, ctx, constr)?;
+    Ok(env.clone())
 }
